@@ -13,7 +13,8 @@ fn menu(n: usize, party: usize, thorough: bool) -> Vec<Stray> {
     }
     let consts_from: Vec<u64> = if thorough { vec![0, (n - 1) as u64, n as u64, u64::MAX] } else { vec![0, n as u64, u64::MAX] };
     for from in consts_from {
-        v.push(Stray::Consts { from });
+        v.push(Stray::Consts { from, nonempty: false });
+        v.push(Stray::Consts { from, nonempty: true });
     }
     let msg_from: Vec<u64> = if thorough { vec![0, party as u64, (n - 1) as u64, n as u64, (n + 5) as u64, u64::MAX] } else { vec![0, party as u64, n as u64, u64::MAX] };
     for from in msg_from {
